@@ -273,7 +273,8 @@ Definition history (tr : list item) : list item := filter (fun i => visible i = 
      evictLeast      RLock count, RLock collection, Lock delete -> PReady (SEvict ..) ; PEvict2
      Walk / Len      one RLock section                     -> PReady SVisit ; PVisit2 / PReady SLen
      syncMap.DeleteAll / evictLeast: Range, then Delete    -> PReady SClearS ; PClear2 / SEvict
-     syncMap.deleteExpired, syncMap.ExpireAll: Range, then act on the entry handed out: NOT modelled. *)
+     syncMap.deleteExpired, syncMap.ExpireAll: Range, then act on the entry handed out: not in this model; their
+     race on one entry is modelled step by step in SyncMapK1.v (all interleavings, both variants of ExpireAll). *)
 From Coq Require Import String.
 Definition assumed_sections : list (string * list (N * bool * bool)) := [
   ("ShardedMap.Restore", [(2%N, false, true)]);
@@ -307,5 +308,6 @@ Definition assumed_sections : list (string * list (N * bool * bool)) := [
   ("syncMap.Write", [(0%N, false, true)]);
   ("syncMap.deleteEntry", [(0%N, false, true)]);     (* CompareAndDelete on the entry deleteExpired was handed *)
   ("syncMap.deleteExpired", [(0%N, true, false)]);
-  ("syncMap.evictLeast", [(0%N, true, false); (0%N, false, true)])
+  ("syncMap.evictLeast", [(0%N, true, false); (0%N, false, true)]);
+  ("syncMap.expireEntry", [(0%N, false, true)])      (* CompareAndSwap of the entry ExpireAll was handed (D17) *)
 ]%string.
